@@ -6,7 +6,8 @@ import RxModel.Props.C14
 ARE the operations of the L0 model `MemStore` that the theorems of C14 are about — `set`, `add_key` (growth loop, marker
 writes, default value), `del_key`, `get`, `is_set`, `is_cleared`; for every store whose arrays are parallel (`MemStore.Inv`,
 an invariant: `C14_inv_run`) and, for `add_key`, every typed (non-mapper) state.  The dict side of mapper states
-(`add_map / get_map / iterate_map`) is not generated.
+(`new_index`, `add_map`, `get_map`, `iterate_map`, monad `MM`) is linked at the end of this file: `LinkS_add_map` (a fresh index from
+the counter, the dict updated in insertion order, `MapRep` preserved), `LinkS_get_map`, `LinkS_iterate_map`.
 -/
 namespace Rx
 open OM
@@ -217,5 +218,81 @@ theorem LinkS_add_key (s : MemStore) (k : Key) (h : s.Inv) (hm : s.dtype ≠ .ma
 /-- the hypotheses are satisfiable: a fresh typed store with a default value -/
 example : (MemStore.new .int (some (.int 0))).Inv ∧ (MemStore.new .int (some (.int 0))).dtype ≠ .mapper :=
   ⟨C14_inv_new _ _, by simp [MemStore.new]⟩
+
+/-! ## the dict side of mapper states (`group_by`'s key → group index maps): `new_index`, `add_map`, `get_map`, `iterate_map` -/
+
+/-- the dict side of the L0 model `s` as the object `ms`: same counter, no freed indices (the code never frees one), and every
+slot that holds a dict holds the model's association list -/
+def MapRep (s : MemStore) (ms : MapSt) : Prop :=
+  ms.nextIndex = s.nextIndex ∧ ms.freeSlots = [] ∧ ms.dicts.length = s.maps.length ∧
+    ∀ (i : Nat) (m : List (Val × Nat)), ms.dicts[i]? = some (some m) → s.maps[i]? = some m
+
+macro "mm_simp" "[" ts:Lean.Parser.Tactic.simpLemma,* "]" : tactic =>
+  `(tactic| simp [MM.run, MM.getNextIndex, MM.getFreeSlots, MM.setNextIndex, MM.setFreeSlots, MM.dictOf, MM.dictSet, MM.dictContains,
+      MM.dictGet, MM.dictKeys,
+      ExceptT.run, StateT.run, bind, ExceptT.bind, ExceptT.mk, ExceptT.bindCont, StateT.bind, modify, modifyGet, MonadStateOf.modifyGet,
+      StateT.modifyGet, pure, ExceptT.pure, StateT.pure, MonadState.modifyGet, liftM, monadLift, MonadLift.monadLift, ExceptT.lift,
+      Functor.map, StateT.map, get, getThe, MonadStateOf.get, StateT.get, set, MonadStateOf.set, StateT.set,
+      throw, throwThe, MonadExceptOf.throw, $ts,*])
+
+/-- the dict after `d[k] = v` -/
+def dictPut (m : List (Val × Nat)) (k : Val) (v : Nat) : List (Val × Nat) :=
+  if m.any (fun p => p.1 = k) then m.map (fun p => if p.1 = k then (k, v) else p) else m ++ [(k, v)]
+
+theorem LinkS_add_map (s : MemStore) (ms : MapSt) (k : Key) (g : Val) (m : List (Val × Nat))
+    (hrep : MapRep s ms) (hd : ms.dicts[k.idx]? = some (some m)) :
+    MM.run (Gen.MemoryStore_add_map k g) ms
+        = (.ok s.nextIndex, { dicts := ms.dicts.set k.idx (some (dictPut m g s.nextIndex)), nextIndex := s.nextIndex + 1, freeSlots := [] })
+      ∧ (s.addMap k g).2 = .idx s.nextIndex
+      ∧ MapRep (s.addMap k g).1
+          { dicts := ms.dicts.set k.idx (some (dictPut m g s.nextIndex)), nextIndex := s.nextIndex + 1, freeSlots := [] } := by
+  obtain ⟨h1, h2, h3, h4⟩ := hrep
+  have hm : s.maps[k.idx]? = some m := h4 _ _ hd
+  have hlt : k.idx < ms.dicts.length := by
+    rcases Nat.lt_or_ge k.idx ms.dicts.length with h | h
+    · exact h
+    · simp [List.getElem?_eq_none h] at hd
+  refine ⟨?_, ?_, ?_⟩
+  · mm_simp [Gen.MemoryStore_add_map, Gen.new_index, h1, h2, hd, dictPut]
+  · simp [MemStore.addMap, hm]
+  · simp only [MemStore.addMap, hm]
+    refine ⟨by simp, by simp, by simp [h3], ?_⟩
+    intro i m2 hi
+    by_cases hik : i = k.idx
+    · subst hik
+      have hlt2 : k.idx < s.maps.length := by omega
+      simp [List.getElem?_set, hlt, hlt2, dictPut] at hi ⊢
+      exact hi
+    · have hne : ¬ k.idx = i := fun h => hik h.symm
+      simp [List.getElem?_set, hne] at hi ⊢
+      exact h4 i m2 hi
+
+theorem LinkS_get_map (s : MemStore) (ms : MapSt) (k : Key) (g : Val) (m : List (Val × Nat))
+    (hrep : MapRep s ms) (hd : ms.dicts[k.idx]? = some (some m)) :
+    MM.run (Gen.MemoryStore_get_map k g) ms
+      = (match s.getMap k g with | .idx i => .ok (some i) | .notset => .ok none | _ => .error "IndexError", ms) := by
+  obtain ⟨h1, h2, h3, h4⟩ := hrep
+  have hm : s.maps[k.idx]? = some m := h4 _ _ hd
+  cases hf : m.find? (fun p => p.1 = g) with
+  | none =>
+    have hany : m.any (fun p => p.1 = g) = false := by
+      simpa [List.any_eq_false] using (List.find?_eq_none.mp hf)
+    mm_simp [Gen.MemoryStore_get_map, MemStore.getMap, hd, hm, hf, hany]
+  | some p =>
+    have hany : m.any (fun p => p.1 = g) = true := by
+      have := List.find?_some hf
+      have hmem := List.mem_of_find?_eq_some hf
+      simp only [List.any_eq_true]
+      exact ⟨p, hmem, this⟩
+    mm_simp [Gen.MemoryStore_get_map, MemStore.getMap, hd, hm, hf, hany]
+
+theorem LinkS_iterate_map (s : MemStore) (ms : MapSt) (k : Key) (m : List (Val × Nat))
+    (hrep : MapRep s ms) (hd : ms.dicts[k.idx]? = some (some m)) :
+    MM.run (Gen.MemoryStore_iterate_map k) ms = (.ok (m.map (·.1)), ms) ∧ s.iterateMap k = .keysOf (m.map (·.1)) := by
+  obtain ⟨h1, h2, h3, h4⟩ := hrep
+  have hm : s.maps[k.idx]? = some m := h4 _ _ hd
+  constructor
+  · mm_simp [Gen.MemoryStore_iterate_map, hd]
+  · simp [MemStore.iterateMap, hm]
 
 end Rx
